@@ -30,6 +30,10 @@ CHeadI(m, n) == CHead(m, UOfInt(n))
 
 UInt(u) == CHead(0, u)
 UIntI(n) == CHeadI(0, n)
+(* an unsigned integer in a head of w argument bytes (w = 0: minimal). Non-minimal heads are well-formed CBOR which the parser
+   accepts; whatever it then writes must again be accepted *)
+WidthOf(u) == CASE Len(u) = 0 \/ (Len(u) = 1 /\ u[1] < 24) -> 0 [] Len(u) = 1 -> 1 [] Len(u) = 2 -> 2 [] Len(u) \in 3..4 -> 4 [] OTHER -> 8
+UIntW(u, w) == IF w = 0 \/ w < WidthOf(u) THEN UInt(u) ELSE CHeadW(0, u, w)
 BStr(b) == CHeadI(2, Len(b)) \o b
 TStr(c) == CHeadI(3, Len(c)) \o c
 Arr(n) == CHeadI(4, n)
@@ -84,17 +88,19 @@ EncEid(e) ==
      [] e.kind = "ipn"  -> Arr(2) \o UInt(e.node) \o UInt(e.svc))
 
 EncTs(t, seq) == Arr(2) \o UInt(t) \o UInt(seq)
+EncTsW(t, seq, w) == Arr(2) \o UIntW(t, w) \o UIntW(seq, w)
 
-(* primary: [ver, flags: U, crc: 0..2, dst, src, rpt, ts: U, seq: U, life: U, frag: BOOLEAN, foff: U, ftotal: U] *)
+(* primary: [ver, flags: U, crc: 0..2, dst, src, rpt, ts: U, seq: U, life: U, frag: BOOLEAN, foff: U, ftotal: U, w: head width of its integers] *)
 PrimaryLen(p) == 8 + (IF p.crc # 0 THEN 1 ELSE 0) + (IF p.frag THEN 2 ELSE 0)
 EncPrimary(p) ==
-  WithCrc(Arr(PrimaryLen(p)) \o UIntI(p.ver) \o UInt(p.flags) \o UIntI(p.crc)
-          \o EncEid(p.dst) \o EncEid(p.src) \o EncEid(p.rpt) \o EncTs(p.ts, p.seq) \o UInt(p.life)
-          \o (IF p.frag THEN UInt(p.foff) \o UInt(p.ftotal) ELSE <<>>), p.crc)
+  WithCrc(Arr(PrimaryLen(p)) \o UIntW(UOfInt(p.ver), p.w) \o UIntW(p.flags, p.w) \o UIntW(UOfInt(p.crc), p.w)
+          \o EncEid(p.dst) \o EncEid(p.src) \o EncEid(p.rpt) \o EncTsW(p.ts, p.seq, p.w) \o UIntW(p.life, p.w)
+          \o (IF p.frag THEN UIntW(p.foff, p.w) \o UIntW(p.ftotal, p.w) ELSE <<>>), p.crc)
 
 (* canonical: [type: Nat, num: Nat, flags: Nat, crc: 0..2, data: bytes]  (data = block-type-specific data, unwrapped) *)
 EncCanonical(c) ==
-  WithCrc(Arr(IF c.crc # 0 THEN 6 ELSE 5) \o UIntI(c.type) \o UIntI(c.num) \o UIntI(c.flags) \o UIntI(c.crc) \o BStr(c.data), c.crc)
+  WithCrc(Arr(IF c.crc # 0 THEN 6 ELSE 5) \o UIntW(UOfInt(c.type), c.w) \o UIntW(UOfInt(c.num), c.w) \o UIntW(UOfInt(c.flags), c.w)
+          \o UIntW(UOfInt(c.crc), c.w) \o BStr(c.data), c.crc)
 
 EncBundle(b) == <<159>> \o EncPrimary(b.primary) \o Concat([i \in 1..Len(b.blocks) |-> EncCanonical(b.blocks[i])]) \o <<255>>
 
